@@ -1047,7 +1047,7 @@ class Key(object):
         self.key_format = None
         self.is_private = None
 
-        if not import_key:
+        if not import_key and not isinstance(import_key, numbers.Number):
             import_key = random.SystemRandom().randint(1, secp256k1_n - 1)
             self.key_format = 'decimal'
             networks_extracted = network
@@ -1114,6 +1114,13 @@ class Key(object):
                     self.compressed = True
                     self._x = int(self.x_hex, 16)
                     self.public_compressed_hex = pub_key
+            if strict:
+                # Check if public key is a valid point on the secp256k1 curve: y^2 = x^3 + 7 (mod p)
+                x = int(self.x_hex, 16)
+                y_square = (pow(x, 3, secp256k1_p) + 7) % secp256k1_p
+                y = self._y if self.y_hex else mod_sqrt(y_square)
+                if not (0 <= x < secp256k1_p and 0 <= y < secp256k1_p and pow(y, 2, secp256k1_p) == y_square):
+                    raise BKeyError("Invalid public key, point is not on the secp256k1 curve")
             self.public_compressed_byte = bytes.fromhex(self.public_compressed_hex)
             if self._public_uncompressed_hex:
                 self._public_uncompressed_byte = bytes.fromhex(self._public_uncompressed_hex)
@@ -1181,6 +1188,8 @@ class Key(object):
         if self.is_private and not (self.public_byte or self.public_hex):
             if not self.is_private:
                 raise BKeyError("Private key has no known secret number")
+            if not self.secret % secp256k1_n:
+                raise BKeyError("Invalid private key, secret is zero or a multiple of the secp256k1 group order")
             p = ec_point(self.secret)
             if USE_FASTECDSA:
                 self._x = p.x
